@@ -304,8 +304,16 @@ impl Prop for C17 {
                 Ok(x) => x,
                 Err(e) => {
                     *ev = json!({"build_error": e});
+                    // rustc rejecting a type of the family (which compiles on the tree the
+                    // check was validated on) is a verdict: a documented derive use no longer
+                    // compiles. Anything else (cargo, disk, ...) is infrastructure.
+                    let rustc = e.contains("error[E") || e.contains("error: ");
                     return vec![Violation {
-                        sig: "infrastructure/build".into(),
+                        sig: if rustc {
+                            "derived-type-does-not-compile".into()
+                        } else {
+                            "infrastructure/build".into()
+                        },
                         detail: e,
                         bytes: Vec::new(),
                         case: json!(null),
